@@ -81,8 +81,10 @@ func paramsFor(prop, tier string) params {
 	case "C06":
 		p.routeEvery = 1
 		p.faultEvery = 0
-	case "C02", "C03":
+	case "C02", "C03", "C07":
 		p.faultEvery = 0
+		p.routeEvery = 0
+	case "C09":
 		p.routeEvery = 0
 	}
 	return p
@@ -92,6 +94,7 @@ func cases(prop, tier string) int {
 	n := map[string][2]int{
 		"C01": {900, 8000}, "C02": {2400, 20000}, "C03": {2400, 20000}, "C04": {900, 8000},
 		"C05": {450, 3000}, "C06": {700, 6000}, "C08": {500, 6000}, "C10": {900, 8000},
+		"C07": {1200, 12000}, "C09": {900, 8000},
 	}[prop]
 	if tier == "thorough" {
 		return n[1]
@@ -206,6 +209,8 @@ func main() {
 		"C06": {"c06_fresh_filters", "route_binds_on_clones", "c06_filters_with_held_ip"},
 		"C08": {"c08_multi_binds_ok", "c08_multi_binds_failed"},
 		"C10": {"provider_assign", "provider_unassign"},
+		"C07": {"pool_growths", "pool_reached_size", "steps_pool-set"},
+		"C09": {"steps_reload", "steps_reserve", "reserved_event_pending_at_allocation"},
 	}[fl.Prop]
 	for _, k := range need {
 		if run.Counter(k) == 0 {
@@ -472,6 +477,8 @@ func (s *Sim) shape(prop string) string {
 		"C06": {"c06_fresh_filters_strict_subset", "route_binds_on_clones", "c06_filters_with_held_ip"},
 		"C08": {"c08_multi_binds_ok", "c08_multi_binds_failed"},
 		"C10": {"provider_assign", "provider_unassign", "provider_moves", "provider_calls_failed"},
+		"C07": {"pool_growths", "pool_reached_size", "steps_pool-set"},
+		"C09": {"steps_reload", "steps_reserve", "steps_unreserve", "reserved_event_pending_at_allocation", "reload_dropped_allocated_ip"},
 	}[prop]
 	nontrivial := false
 	var obs []string
